@@ -1,12 +1,14 @@
 --------------------------- MODULE StreamsMap_Trace ---------------------------
 (* Validates traces recorded from the real streamsMap (harness/root/c15_test.go). *)
 EXTENDS StreamsMap, TraceLib
-VARIABLES l, diverged
-tvars == <<vars, l, diverged>>
+VARIABLES l, diverged,
+          settled,     \* the last line was a "Settled" marker: every goroutine of the execution is blocked or done
+          refusedAt    \* limits at which a plain OpenStream was refused
+tvars == <<vars, l, diverged, settled, refusedAt>>
 Line == Trace[l]
 NoFrames(e) == e.ms = <<>> /\ e.fr = <<>>
 
-Strict ==
+Event ==
   LET e == Line IN
   \/ e.ev = "Reset" /\ ResetAll
   \/ e.ev = "PeerIncoming" /\ ~MustServe /\ PeerIncoming(e.n, e.res) /\ NoFrames(e)
@@ -21,19 +23,31 @@ Strict ==
   \/ e.ev = "CompleteIn" /\ ~MustServe /\ CompleteIn(e.n, e.res, e.ms) /\ e.fr = <<>>
   \/ e.ev = "CompleteOut" /\ ~MustServe /\ CompleteOut(e.n, e.res) /\ NoFrames(e)
   \/ e.ev = "Close" /\ ~MustServe /\ Close
-  \/ e.ev = "Done" /\ e.kind = "open" /\ e.res >= 1 /\ ServeOpen(e.c, e.res) /\ e.ms = <<>>
+  \/ e.ev = "Done" /\ e.kind = "open" /\ e.res >= 1 /\ ServeOpen(e.c, e.res, e.fr) /\ e.ms = <<>>
   \/ e.ev = "Done" /\ e.kind = "accept" /\ e.res >= 1 /\ ServeAccept(e.c, e.res, e.ms) /\ e.fr = <<>>
   \/ e.ev = "Done" /\ e.res = -2 /\ ClosedReturn(e.c)
+  \/ e.ev = "Settled" /\ Quiet(e.fr) /\ e.ms = <<>>
+Strict ==
+  /\ Event
+  /\ settled' = (Line.ev = "Settled")
+  /\ refusedAt' = IF Line.ev = "Reset" THEN {}
+                  ELSE IF Line.ev = "Open" /\ Line.res = 0 THEN refusedAt \cup {peerMax} ELSE refusedAt
 
 Step == /\ l <= TraceLen /\ diverged = <<>>
         /\ Strict /\ l' = l + 1 /\ UNCHANGED diverged
 Diverge == /\ l <= TraceLen /\ diverged = <<>> /\ ~ENABLED Strict
-           /\ diverged' = [line |-> l, ev |-> Line] /\ l' = TraceLen + 1 /\ UNCHANGED vars
-TraceInit == Init /\ l = 1 /\ diverged = <<>>
+           /\ diverged' = [line |-> l, ev |-> Line] /\ l' = TraceLen + 1 /\ UNCHANGED <<vars, settled, refusedAt>>
+TraceInit == Init /\ l = 1 /\ diverged = <<>> /\ settled = FALSE /\ refusedAt = {}
 TraceNext == Step \/ Diverge
 TraceSpec == TraceInit /\ [][TraceNext]_tvars
 NoDivergence == diverged = <<>>
 \* at the end of an execution (next line starts a new one, or the trace ends) no blocked call that could
 \* have been served is left waiting
 NoStarvedWaiter == (diverged = <<>> /\ (l > TraceLen \/ Trace[l].ev = "Reset")) => ~MustServe
+\* "a STREAMS_BLOCKED is sent once per limit": at most once is part of every action (BlockedOK); at least once is judged
+\* where the execution is quiescent, so that it does not matter which of two racing calls the harness attributes a frame to:
+\* whoever is still waiting for credit, or was refused, at a limit has had that limit reported
+BlockedReported ==
+  (settled /\ diverged = <<>> /\ ~closed) => /\ (queue # <<>> => peerMax \in blockedAt)
+                                             /\ refusedAt \subseteq blockedAt
 =============================================================================
